@@ -349,7 +349,7 @@ class Calculation(StateItem):
     def get_by_label(self, label: Label) -> "StateItem":
         if label.empty():
             return self
-        elif label.tail.empty():
+        elif label.tail.empty() and label.head < len(self.steps):
             return self.steps[label.head]
         else:
             raise AssertionError("get_by_label: invalid label")
@@ -602,9 +602,15 @@ class RewriteGoalProof(StateItem):
         return res
 
     def get_by_label(self, label: Label):
-        if label.empty() or len(label.data) == 1:
+        # The calculation of a rewrite-goal proof has label 1 (as for the
+        # left side of a calculation proof), its steps have labels 1.k.
+        if label.empty():
             return self
-        elif not label.tail.empty():
+        elif label.head != 0:
+            raise AssertionError("get_by_label: invalid label")
+        elif label.tail.empty():
+            return self
+        elif label.tail.tail.empty() and label.tail.head < len(self.begin.steps):
             return self.begin.steps[label.tail.head]
         else:
             raise AssertionError("get_by_label: invalid label")
